@@ -953,6 +953,12 @@ _T = "src/odfdo/table.py"
 _R = "src/odfdo/row.py"
 _EC = "src/odfdo/element_cached.py"
 SEEDS = [
+    Seed("delete_cell leaves early beyond the declared width", "fault", "src/odfdo/table.py",
+         "        # Outside the defined table\n        if y >= self.height:\n            return\n        # Inside the defined table\n        row = self._get_row2_base(y)\n        if row is None:\n            raise ValueError\n        repeated = row.repeated or 1\n        if repeated > 1:\n            # edit a single copy",
+         "        # Outside the defined table\n        declared = self.width\n        if y >= self.height:\n            return\n        if x >= declared:\n            return\n        # Inside the defined table\n        row = self._get_row2_base(y)\n        if row is None:\n            raise ValueError\n        repeated = row.repeated or 1\n        if repeated > 1:\n            # edit a single copy", "R01m"),
+    Seed("delete_cell tests the height through a local", "neutral", "src/odfdo/table.py",
+         "        # Outside the defined table\n        if y >= self.height:\n            return\n        # Inside the defined table\n        row = self._get_row2_base(y)\n        if row is None:\n            raise ValueError\n        repeated = row.repeated or 1\n        if repeated > 1:\n            # edit a single copy",
+         "        # Outside the defined table\n        rows = self.height\n        if not y < rows:\n            return\n        # Inside the defined table\n        row = self._get_row2_base(y)\n        if row is None:\n            raise ValueError\n        repeated = row.repeated or 1\n        if repeated > 1:\n            # edit a single copy"),
     Seed("Row._delete_cells removes the children found by the plain cell tag", "fault", _R,
          "        for cell in self._get_cells():\n            self.delete(cell)\n        self._compute_row_cache()",
          "        for cell in self.get_elements(Cell._tag):\n            self.delete(cell)\n        self._compute_row_cache()", "R01l"),
